@@ -1,10 +1,14 @@
 package sigsrv
 
 import (
+	"crypto/sha256"
 	"fmt"
 	"math/rand/v2"
+	"os"
 	"strings"
+	"sync"
 	"testing"
+	"time"
 
 	"github.com/aperturerobotics/bifrost/peer"
 	signaling "github.com/aperturerobotics/bifrost/signaling/rpc"
@@ -152,21 +156,31 @@ func genC20HistProg(rng *rand.Rand) []c20op {
 func TestC20(t *testing.T) {
 	r := vf.Start(t, "C20", vf.Exploration)
 	defer r.Finish()
-	r.SetRule("case = PRNG program of 8-24 steps over 3 authenticated clients (each may turn malicious): honest sends/acks/clears/re-attach/detach mixed with: stale and future session_seqno, message signed by another client (authentic but not this stream's identity), replay of another client's valid message, claimed-self but signed with another key, tampered data/signature, missing/empty signature, hash type 0, other signing context, nil/empty message, unsolicited and duplicate acks, unsolicited clears, second Init, empty body, and calls whose first request is not a valid Init (non-Init, seqno!=0, self, bad id, empty id). A second family of programs (8-20+ steps) adds HISTORY-dependent forgeries: submissions derived from a message the server already verified and accepted from the same client (its signature bytes + sender with a new / bit-flipped / appended / truncated payload, another hash type, a pub_key field of another client or of itself plus a new payload, re-attributed to another client; the payload under the signature of another accepted message and vice versa; the payload re-signed by another key or under another context; extended signature), source = latest / previous-but-one / third-latest accepted message of this call, of any earlier call x->y or of any call of x, submitted immediately after the source, after the partner acked it, after the partner or the sender re-attached (new epoch / new call), after an exact replay of the own message (authentic, may be forwarded), after further honest sends or unrelated steps; every such program holds at least one original->variant motif. A third family (8-18+ steps) relies on the harness streams being WIRE-FAITHFUL (every request is marshalled at submission and decoded by the server side with UnmarshalVT into whatever object the server passes to Recv/RecvTo, without Reset; every response is marshalled at Send and the outbox keeps the decoded copy): (a) field-presence sequences first>second on one stream, first = complete current send / two sends / ack / clear, second = a request lacking fields on the wire: session_seqno 0 (an older epoch) on a send / ack / clear, message seqno 0, SendMsg without signature / data / sender / hash type / signature bytes, empty / seqno-only / nil SendMsg, zero-length packet, seqno without body; with and without quiescence in between; (b) the attribution matrix claimed from_peer_id {stream identity, other client, non-client X} x real signer {stream identity, other client, X} x pub_key field {absent, stream identity, signer, other client, X2, garbage}, over a fresh payload or the payload of a message accepted earlier on the call: authentic iff from = signer = stream identity. The instance is quiescent before every submission (bursts: no call starts or ends in between), so the epoch at submission is exact. Oracle: every RecvMsg in the outbox of a call Q->P equals (byte for byte) a message that the harness submitted earlier on a call P->Q, that is honest (signed by P = stream identity under the signaling context, valid hash) and whose session_seqno == epoch at submission, and no message is forwarded more often than such a copy was submitted; future seqno => the call ends with an error; AckMsg(s) to P only if P's message s was delivered to Q and Q acked it afterwards with the then-current session_seqno (at most once per delivery); ClearMsg(s) to Q only if s was delivered to Q and P cleared it afterwards with the current session_seqno; a call with an invalid first request ends with an error and leaves VerifStateSizes unchanged. Non-trivial = at least one honest message forwarded and at least one hostile step executed; distinct = program")
+	r.SetRule("case = PRNG program of 8-24 steps over 3 authenticated clients (each may turn malicious): honest sends/acks/clears/re-attach/detach mixed with: stale and future session_seqno, message signed by another client (authentic but not this stream's identity), replay of another client's valid message, claimed-self but signed with another key, tampered data/signature, missing/empty signature, hash type 0, other signing context, nil/empty message, unsolicited and duplicate acks, unsolicited clears, second Init, empty body, and calls whose first request is not a valid Init (non-Init, seqno!=0, self, bad id, empty id). A second family of programs (8-20+ steps) adds HISTORY-dependent forgeries: submissions derived from a message the server already verified and accepted from the same client (its signature bytes + sender with a new / bit-flipped / appended / truncated payload, another hash type, a pub_key field of another client or of itself plus a new payload, re-attributed to another client; the payload under the signature of another accepted message and vice versa; the payload re-signed by another key or under another context; extended signature), source = latest / previous-but-one / third-latest accepted message of this call, of any earlier call x->y or of any call of x, submitted immediately after the source, after the partner acked it, after the partner or the sender re-attached (new epoch / new call), after an exact replay of the own message (authentic, may be forwarded), after further honest sends or unrelated steps; every such program holds at least one original->variant motif. A third family (8-18+ steps) relies on the harness streams being WIRE-FAITHFUL (every request is marshalled at submission and decoded by the server side with UnmarshalVT into whatever object the server passes to Recv/RecvTo, without Reset; every response is marshalled at Send and the outbox keeps the decoded copy): (a) field-presence sequences first>second on one stream, first = complete current send / two sends / ack / clear, second = a request lacking fields on the wire: session_seqno 0 (an older epoch) on a send / ack / clear, message seqno 0, SendMsg without signature / data / sender / hash type / signature bytes, empty / seqno-only / nil SendMsg, zero-length packet, seqno without body; with and without quiescence in between; (b) the attribution matrix claimed from_peer_id {stream identity, other client, non-client X} x real signer {stream identity, other client, X} x pub_key field {absent, stream identity, signer, other client, X2, garbage}, over a fresh payload or the payload of a message accepted earlier on the call: authentic iff from = signer = stream identity. A fourth family (8-16+ steps) uses BOUNDARY VALUES of every number the server compares: honest messages whose session_seqno is ahead of the epoch e by 1, 2, 3, 2^31, 2^32, 2^63-1, 2^63, 2^63+1 or equals 2^32, 2^63, MaxUint64-1, MaxUint64 (also in the first family; each must end the call with an error), acks / clears stamped with those values (must have no effect), honest messages whose own seqno is 0, 1, 2^31-1 .. 2^63+1, MaxUint64-1, MaxUint64, and acks by the receiver / clears by the sender that name a near miss of the delivered seqno s (s+-1, s+-2^32, bit 63 or 31 flipped, low 32 bits, sign-extended low 32 bits, ^s, s<<32, s>>32, 0, MaxUint64), before and after the exact ack. A fifth family (9-16+ steps) restarts clients as FRESH INCARNATIONS (same identity, message seqnos start at 1 again), taking over while the previous call is still registered or after the old stream died, while the partner holds an un-acknowledged message with the same seqno of the previous incarnation and its ack is IN FLIGHT: issued in answer to the old delivery with the epoch the partner had been told, it reaches the server before / after the new incarnation's message with the same seqno was submitted / delivered / acknowledged. In these five families the instance is quiescent before every submission (bursts: no call starts or ends in between), so the epoch at submission is exact. A sixth family submits an honest LARGE message (128 KiB .. 1 MiB quick / 2 MiB thorough, sized at start so that verifying it takes >= 1 ms quick / 2 ms thorough here) for the current epoch and changes the epoch WHILE the server works on it: as soon as the server's Recv took the request (or at once), after 0-400 scheduler yields, the partner re-attaches (old call still registered; the new call usually already parked in its first Recv) / re-attaches twice / detaches and attaches / detaches, or the sender re-attaches; quiescence only before the submission and after the change; non-trivial there = the change was observed to complete before the server took the next request of the sender. Oracle: every RecvMsg in the outbox of a call Q->P equals (byte for byte) a message that the harness submitted earlier on a call P->Q, that is honest (signed by P = stream identity under the signaling context, valid hash) and whose session_seqno == epoch at submission, and no message is forwarded more often than such a copy was submitted; in the recipient's outbox the RecvMsg directly follows (no Opened/Closed in between) Opened(x) with x = the session_seqno it was submitted with (no message submitted in one epoch is delivered in another); future seqno => the call ends with an error; AckMsg(s) to P only if P's message s was delivered to Q and Q acked it afterwards with the then-current session_seqno (at most once per delivery), or an in-flight ack that answered the delivery of a message of that same call reached the server (an ack that answered a message of a previous call of the peer explains nothing); ClearMsg(s) to Q only if s was delivered to Q and P cleared it afterwards with the current session_seqno; a call with an invalid first request ends with an error and leaves VerifStateSizes unchanged. Non-trivial = at least one honest message forwarded and at least one hostile step executed; distinct = program")
 	r.Assume("honest messages are built with signaling.NewSessionMsg; honest/forged is known by construction, never inferred from the server's reaction")
 	rng := r.Rand("c20")
 	pool := keys.Pool(rng, 3)
 	n0 := r.N(300, 5000)
 	nh := r.N(240, 3000)
 	nw := r.N(160, 3000)
-	n := n0 + nh + nw
+	nb := r.N(70, 1000)
+	ni := r.N(90, 1200)
+	n := n0 + nh + nw + nb + ni
 	progs := make([][]c20op, n)
+	brng := r.Rand("c20-boundary")
+	for i := n0 + nh + nw; i < n0+nh+nw+nb; i++ {
+		progs[i] = genC20BndProg(brng)
+	}
+	irng := r.Rand("c20-incarnation")
+	for i := n0 + nh + nw + nb; i < n; i++ {
+		progs[i] = genC20IncProg(irng)
+	}
 	hrng := r.Rand("c20-history")
 	for i := n0; i < n0+nh; i++ {
 		progs[i] = genC20HistProg(hrng)
 	}
 	wrng := r.Rand("c20-wire")
-	for i := n0 + nh; i < n; i++ {
+	for i := n0 + nh; i < n0+nh+nw; i++ {
 		progs[i] = genC20WireProg(wrng)
 	}
 	extra := keys.Pool(r.Rand("c20-nonclients"), 2)
@@ -187,12 +201,42 @@ func TestC20(t *testing.T) {
 			progs[i] = append(progs[i], o)
 		}
 	}
+	// VERIF_C20_ONLY=base,hist,wire,bnd,inc,race restricts the families (debugging only)
+	only := os.Getenv("VERIF_C20_ONLY")
+	fam := func(i int) string {
+		switch {
+		case i < n0:
+			return "base"
+		case i < n0+nh:
+			return "hist"
+		case i < n0+nh+nw:
+			return "wire"
+		case i < n0+nh+nw+nb:
+			return "bnd"
+		}
+		return "inc"
+	}
+	famT := map[string]float64{}
+	var famMu sync.Mutex
 	runParallel(n, 16, func(i int) {
+		if only != "" && !strings.Contains(only, fam(i)) {
+			return
+		}
 		if i%16 == 0 {
 			r.Begin(fmt.Sprintf("batch around case %d: %v", i, progs[i]))
 		}
+		t0 := time.Now()
 		runC20(r, pool, extra, i, progs[i])
+		famMu.Lock()
+		famT[fam(i)] += time.Since(t0).Seconds()
+		famMu.Unlock()
 	})
+	if only == "" || strings.Contains(only, "race") {
+		t0 := time.Now()
+		runC20RaceFamily(r, pool)
+		famT["race(wall)"] = time.Since(t0).Seconds()
+	}
+	r.Extra("worker_seconds_per_family", famT) // cost accounting only
 	quiesceEvidence(r)
 }
 
@@ -207,6 +251,17 @@ type c20state struct {
 	lastSent map[[2]int]uint64 // last honest message seqno submitted on x->y
 	acked    map[[2]int][]uint64
 	unsol    uint64
+	inflight map[[2]int]*pendAck // acks issued by the client behind x->y and not yet on the wire
+}
+
+// pendAck is an acknowledgement a client has issued (in answer to the delivery
+// of a message that call answers submitted, stamped with the epoch the client
+// had been told) but that has not reached the server yet.
+type pendAck struct {
+	q         *g7sig.Call
+	seq, sess uint64
+	issue     int64
+	answers   *g7sig.Call
 }
 
 func (s *c20state) live(x, y int) *g7sig.Call {
@@ -243,7 +298,7 @@ func runC20(r *vf.Run, pool, extra []*keys.Identity, idx int, prog []c20op) {
 	sig := strings.Join(ps, " ")
 	w := newWorld(r, fmt.Sprintf("c20#%d", idx), pool)
 	defer w.end()
-	s := &c20state{w: w, cur: map[[2]int]*g7sig.Call{}, histCall: map[*g7sig.Call][]*signaling.SessionMsg{}, histPair: map[string][]*signaling.SessionMsg{}, histSrc: map[string][]*signaling.SessionMsg{}, lastSent: map[[2]int]uint64{}, acked: map[[2]int][]uint64{}, unsol: 1 << 40}
+	s := &c20state{w: w, cur: map[[2]int]*g7sig.Call{}, histCall: map[*g7sig.Call][]*signaling.SessionMsg{}, histPair: map[string][]*signaling.SessionMsg{}, histSrc: map[string][]*signaling.SessionMsg{}, lastSent: map[[2]int]uint64{}, acked: map[[2]int][]uint64{}, unsol: 1 << 40, inflight: map[[2]int]*pendAck{}}
 	hostile := 0
 	pidS := func(i int) string { return pool[i].String() }
 	nextSeq := func(x int) uint64 { w.msgSeq[pidS(x)]++; return w.msgSeq[pidS(x)] }
@@ -315,6 +370,36 @@ func runC20(r *vf.Run, pool, extra []*keys.Identity, idx int, prog []c20op) {
 		if o.kind == "attach" {
 			s.cur[k] = w.session(x, y)
 			r.Count("op_attach", 1)
+			if !w.quiesce() {
+				r.Case(sig, false)
+				return
+			}
+			continue
+		}
+		if o.kind == "reincarnate" || o.kind == "restart" {
+			// a FRESH incarnation of client x (same identity, e.g. a restarted process):
+			// its message seqnos start at 1 again. reincarnate: the old call is still
+			// registered (takeover); restart: the old stream dies first
+			if o.kind == "restart" {
+				if c := s.live(x, y); c != nil {
+					w.kill(c)
+					if o.n&1 == 0 && !w.quiesce() {
+						r.Case(sig, false)
+						return
+					}
+				}
+			} else if s.live(x, y) != nil {
+				r.Count("takeover_while_old_call_registered", 1)
+			}
+			s.cur[k] = w.session(x, y)
+			w.msgSeq[pidS(x)] = 0
+			for kk := range s.lastSent {
+				if kk[0] == x {
+					delete(s.lastSent, kk)
+				}
+			}
+			w.logf("%s is a fresh incarnation of %s: message seqnos restart at 1", w.cstr(s.cur[k]), w.nick(pidS(x)))
+			r.Count("op_"+o.kind, 1)
 			if !w.quiesce() {
 				r.Case(sig, false)
 				return
@@ -612,7 +697,9 @@ func runC20(r *vf.Run, pool, extra []*keys.Identity, idx int, prog []c20op) {
 		case "future":
 			hostile++
 			m := g7sig.Honest(pool[x], payload(), nextSeq(x))
-			submitMsg(c, e+1+uint64(o.n%3), e, m, true, "honest-future-epoch")
+			fut, name := c20future(e, o.n)
+			r.Distinct("c20_future_session_seqno", name)
+			submitMsg(c, fut, e, m, true, "honest-future-epoch")
 		case "foreign":
 			hostile++
 			m := g7sig.Honest(pool[z], payload(), nextSeq(x))
@@ -679,6 +766,111 @@ func runC20(r *vf.Run, pool, extra []*keys.Identity, idx int, prog []c20op) {
 			m := g7sig.Honest(pool[x], payload(), nextSeq(x))
 			m.SignedMsg.Data = nil
 			submitMsg(c, e, e, m, false, "empty-data")
+		case "send-bigseq":
+			// authentic and current; the message's own seqno is a boundary value
+			seq, name := c20bigSeq(o.n)
+			m := g7sig.Honest(pool[x], payload(), seq)
+			s.lastSent[k] = m.Seqno
+			r.Distinct("c20_message_seqno_boundary", name)
+			submitMsg(c, e, e, m, true, "honest")
+		case "ack-near", "ack-future":
+			hostile++
+			var seq uint64
+			found := false
+			for _, it := range c.Outbox() {
+				if it.Kind == "recv" {
+					seq, found = it.U, true
+				}
+			}
+			if o.kind == "ack-future" {
+				if !found {
+					s.unsol++
+					seq = s.unsol
+				}
+				fut, name := c20future(e, o.n)
+				r.Distinct("c20_future_session_seqno_on_ack", name)
+				w.submitAck(c, fut, e, seq) // not for the current epoch: explains nothing
+				break
+			}
+			if !found {
+				seq, _ = c20bigSeq(o.n >> 4)
+			}
+			near, name := c20near(seq, o.n)
+			r.Distinct("c20_near_miss_ack", name)
+			if found {
+				r.Count("near_miss_acks_of_a_delivered_message", 1)
+			}
+			w.submitAck(c, e, e, near)
+		case "clear-near", "clear-future":
+			hostile++
+			seq := s.lastSent[k]
+			if o.kind == "clear-future" {
+				fut, name := c20future(e, o.n)
+				r.Distinct("c20_future_session_seqno_on_clear", name)
+				w.submitClear(c, fut, e, seq)
+				break
+			}
+			if seq == 0 {
+				seq, _ = c20bigSeq(o.n >> 4)
+			}
+			near, name := c20near(seq, o.n)
+			r.Distinct("c20_near_miss_clear", name)
+			w.submitClear(c, e, e, near)
+		case "ack-issue":
+			// the client behind c answers the latest delivery with an ack that stays in
+			// flight (ack-land puts it on the wire later)
+			var last *g7sig.Item
+			for _, it := range c.Outbox() {
+				if it.Kind == "recv" {
+					cp := it
+					last = &cp
+				}
+			}
+			kind, told := c.LastOpen()
+			if last == nil || kind != "opened" {
+				continue
+			}
+			var ans *g7sig.Call
+			var best int64 = -1
+			for _, rec := range w.subs[string(last.Msg.GetSignedMsg().GetData())] {
+				if rec.call.Src == c.Dst && rec.call.Dst == c.Src && rec.clock < last.Clock && rec.clock > best {
+					ans, best = rec.call, rec.clock
+				}
+			}
+			if ans == nil {
+				continue
+			}
+			s.inflight[k] = &pendAck{q: c, seq: last.U, sess: told, issue: w.h.Tick(), answers: ans}
+			w.logf("%s issues AckMsg(%d) session_seqno=%d in answer to the message of %s; it stays in flight", w.cstr(c), last.U, told, w.cstr(ans))
+			r.Count("late_acks_issued", 1)
+			continue
+		case "ack-land":
+			p := s.inflight[k]
+			delete(s.inflight, k)
+			if p == nil {
+				continue
+			}
+			if ret, _ := p.q.Returned(); ret || p.q.Killed() {
+				r.Count("late_acks_lost_with_their_stream", 1)
+				continue
+			}
+			hostile++
+			clk := p.q.Submit(g7sig.ReqAck(p.sess, p.seq))
+			if w.lateAcks[p.q] == nil {
+				w.lateAcks[p.q] = map[uint64][]lateAck{}
+			}
+			w.lateAcks[p.q][p.seq] = append(w.lateAcks[p.q][p.seq], lateAck{issue: p.issue, submit: clk, answers: p.answers})
+			w.logf("the in-flight AckMsg(%d) session_seqno=%d of %s reaches the server (epoch %d)", p.seq, p.sess, w.cstr(p.q), e)
+			r.Count("late_acks_landed", 1)
+			if ret, _ := p.answers.Returned(); ret || s.cur[[2]int{y, x}] != p.answers {
+				r.Count("late_acks_landed_after_sender_was_replaced", 1)
+				for _, it := range p.q.Outbox() {
+					if it.Kind == "recv" && it.U == p.seq && it.Clock > p.issue {
+						r.Count("late_acks_landed_after_new_incarnation_delivered_same_seqno", 1)
+						break
+					}
+				}
+			}
 		case "ack":
 			var seq uint64
 			found := false
@@ -729,7 +921,8 @@ func runC20(r *vf.Run, pool, extra []*keys.Identity, idx int, prog []c20op) {
 		if o.kind == "future" {
 			ret, err := c.Returned()
 			if !ret || err == nil {
-				w.violate("seqno/future-not-rejected", fmt.Sprintf("%s sent session_seqno > epoch %d but the call did not end with an error (returned=%v err=%v)", w.cstr(c), e, ret, err))
+				fut, name := c20future(e, o.n)
+				w.violate("seqno/future-not-rejected", fmt.Sprintf("%s sent a correctly signed message with session_seqno %d (%s) > epoch %d but the call did not end with an error (returned=%v err=%v)", w.cstr(c), fut, name, e, ret, err))
 			} else {
 				r.Count("future_seqno_rejected", 1)
 			}
@@ -786,7 +979,18 @@ func (w *world) checkForward() (forwardedOK int) {
 	// submitted for the then-current epoch (a pending message is handed to the
 	// partner's stream at most once)
 	type fkey struct{ src, dst, enc string }
-	enc := func(m *signaling.SessionMsg) string { b, _ := m.MarshalVT(); return string(b) }
+	enc := func(m *signaling.SessionMsg) string {
+		if d := m.GetSignedMsg().GetData(); len(d) > 64<<10 {
+			// large payloads: everything but the payload, plus its digest
+			h := sha256.Sum256(d)
+			sm := m.GetSignedMsg()
+			cp := &signaling.SessionMsg{Seqno: m.GetSeqno(), SignedMsg: &peer.SignedMsg{FromPeerId: sm.GetFromPeerId(), Signature: sm.GetSignature(), Data: h[:]}}
+			b, _ := cp.MarshalVT()
+			return fmt.Sprintf("large:%d:%s", len(d), b)
+		}
+		b, _ := m.MarshalVT()
+		return string(b)
+	}
 	nSub, nFwd := map[fkey]int{}, map[fkey]int{}
 	for _, recs := range w.subs {
 		for _, rec := range recs {
@@ -826,8 +1030,16 @@ func (w *world) checkForward() (forwardedOK int) {
 					w.violate("forward/unknown-message", fmt.Sprintf("%s received a message (seq %d) nobody submitted", w.cstr(c), it.U))
 					continue
 				}
-				var onSess, honest, epochOK, same bool
+				var onSess, honest, epochOK, same, inEpoch bool
 				cls := ""
+				// the announcement this RecvMsg directly follows in the outbox
+				annKind, annVal := "", uint64(0)
+				for _, it2 := range out[:i] {
+					if it2.Kind == "opened" || it2.Kind == "closed" {
+						annKind, annVal = it2.Kind, it2.U
+					}
+				}
+				var subFor []uint64
 				for _, rec := range recs {
 					if rec.call.Src != c.Dst || rec.call.Dst != c.Src || rec.clock >= it.Clock {
 						continue
@@ -845,6 +1057,10 @@ func (w *world) checkForward() (forwardedOK int) {
 					if rec.msg.EqualVT(it.Msg) {
 						same = true
 					}
+					subFor = append(subFor, rec.sessSeqno)
+					if annKind == "opened" && annVal == rec.sessSeqno {
+						inEpoch = true
+					}
 				}
 				switch {
 				case !onSess:
@@ -855,7 +1071,12 @@ func (w *world) checkForward() (forwardedOK int) {
 					w.violate("forward/wrong-epoch", fmt.Sprintf("%s received message seq %d that was submitted for another epoch (%s)", w.cstr(c), it.U, cls))
 				case !same:
 					w.violate("forward/altered", fmt.Sprintf("%s received message seq %d altered by the relay", w.cstr(c), it.U))
+				case !inEpoch:
+					// "no message submitted in one epoch is delivered in a later epoch": the
+					// recipient is in the epoch it was last told
+					w.violate("forward/in-other-epoch", fmt.Sprintf("%s received message seq %d (%d bytes) submitted for epoch %v while the last announcement on its stream was %s(%d)", w.cstr(c), it.U, len(it.Msg.GetSignedMsg().GetData()), subFor, annKind, annVal))
 				default:
+					w.r.Count("c20_recv_under_its_epoch", 1)
 					forwardedOK++
 				}
 			case "ack":
@@ -894,9 +1115,24 @@ func (w *world) checkForward() (forwardedOK int) {
 							}
 						}
 					}
+					// an ack that was in flight: it answers one particular delivery and can
+					// only acknowledge a message of the call that submitted THAT message
+					for _, la := range w.lateAcks[q][it.U] {
+						if la.answers == c && la.submit < it.Clock {
+							ok = true
+						}
+					}
 				}
 				if !ok || nAck > deliveries {
-					w.violate("ack/unsolicited", fmt.Sprintf("%s was told AckMsg(%d) but the partner never acknowledged a delivery of that message on this call (deliveries=%d, acks told=%d)", w.cstr(c), it.U, deliveries, nAck))
+					note := ""
+					for _, q := range calls {
+						for _, la := range w.lateAcks[q][it.U] {
+							if la.answers != c && la.submit < it.Clock {
+								note = fmt.Sprintf("; an AckMsg(%d) of %s that had been in flight since it answered a message of %s (a previous call of that peer) reached the server before", it.U, w.cstr(q), w.cstr(la.answers))
+							}
+						}
+					}
+					w.violate("ack/unsolicited", fmt.Sprintf("%s was told AckMsg(%d) but the partner never acknowledged a delivery of that message on this call (deliveries=%d, acks told=%d)%s", w.cstr(c), it.U, deliveries, nAck, note))
 				} else {
 					w.r.Count("c20_ack_explained", 1)
 				}
